@@ -340,12 +340,16 @@ def _tree_events(tm):
 
 
 # ----------------------------------------------------------------------------- tree likelihood
-SUBST_KINDS = ("JC69", "HKY", "HKY_sb", "GTR", "GTR_sb", "GenSym", "GenNonSym", "GeneralJC69", "MG94", "LG", "WAG")
+SUBST_KINDS = ("JC69", "HKY", "HKY_sb", "GTR", "GTR_sb", "GenSym", "GenNonSym", "GenNonSym12", "GeneralJC69", "MG94",
+               "LG", "WAG")
+# models whose p_t goes through torch.linalg.eigh TODAY (the only ones the known repeated-eigenvalue finding is about)
+EIGH_MODELS = ("HKY", "HKY_sb", "GTR", "GTR_sb", "GenSym", "MG94")
+SUBST_PARAM_LEAVES = ("kappa", "rates6", "gr", "freqs", "zfreqs", "cfreqs", "alpha", "beta")
 SITE_KINDS = ("const", "const_mu", "weibull", "weibull_inv", "weibull_mu", "inv", "inv_mu")
 
 
 def gen_like(rng, subst, site, treekind, rescale, tip_states=False, ambig=True, n=None, sites=None, clock="strict",
-             pinv_zero=False, equal_rates=False):
+             pinv_zero=False, subst_point=None):
     n = n or rng.randint(4, 6)
     sites = sites or rng.randint(6, 10)
     t, x, b = gen_tree(rng, n, treekind)
@@ -367,13 +371,16 @@ def gen_like(rng, subst, site, treekind, rescale, tip_states=False, ambig=True, 
         x["kappa"], b["kappa"] = [k], [0.0, None]
     if subst in ("GTR", "GTR_sb"):
         x["rates6"], b["rates6"] = [rpos(rng, 0.3, 3.0) for _ in range(6)], [0.0, None]
-    if subst in ("HKY", "GTR", "GenSym", "GenNonSym"):
+    if subst in ("HKY", "GTR", "GenSym", "GenNonSym", "GenNonSym12"):
         x["freqs"], b["freqs"] = rsimplex(rng, 4), [0.0, None]
     if subst in ("HKY_sb", "GTR_sb"):
         x["zfreqs"], b["zfreqs"] = [rng.uniform(-0.7, 0.7) for _ in range(3)], [None, None]
     if subst == "GenSym":
         spec["mapping"] = [0, 1, 2, 1, 0, 2]
         x["gr"], b["gr"] = [rpos(rng, 0.3, 3.0) for _ in range(3)], [0.0, None]
+    if subst == "GenNonSym12":
+        spec["mapping"] = list(range(12))
+        x["gr"], b["gr"] = [rpos(rng, 0.3, 3.0) for _ in range(12)], [0.0, None]
     if subst == "GenNonSym":
         spec["mapping"] = [0, 1, 2, 3, 4, 0, 1, 5, 2, 3, 4, 5]
         x["gr"], b["gr"] = [rpos(rng, 0.3, 3.0) for _ in range(6)], [0.0, None]
@@ -391,22 +398,85 @@ def gen_like(rng, subst, site, treekind, rescale, tip_states=False, ambig=True, 
         x["pinv"], b["pinv"] = [rng.uniform(0.1, 0.6)], [0.0, 1.0]
     spec["x"], spec["bounds"] = x, b
     spec["name"] = "like/%s/%s/%s/rescale=%d%s" % (subst, site, treekind, rescale, "/tipstates" if tip_states else "")
-    if equal_rates:
-        if "kappa" in x and subst.startswith("HKY"):
-            x["kappa"] = [1.0]
-            hold_fixed(spec, "kappa")
-        if "rates6" in x:
-            x["rates6"] = [1.0] * 6
-            hold_fixed(spec, "rates6")
-        for nm in ("freqs", "zfreqs"):
-            if nm in x:
-                hold_fixed(spec, nm)  # their gradient goes through eigh at a repeated eigenvalue (trusted base)
-        spec["name"] += "/equal-rates"
+    if subst_point:
+        apply_subst_point(spec, subst_point, rng)
     if pinv_zero and "pinv" in x:
         x["pinv"] = [0.0]
         hold_fixed(spec, "pinv")
         spec["name"] += "/pinv=0"
     return spec
+
+
+SUBST_POINTS = ("equal_rates", "grouped_rates", "uniform_freqs", "equal_rates+uniform_freqs", "unit_values")
+
+
+def apply_subst_point(spec, point, rng):
+    """put the substitution-model parameters ON a special but valid point.  Whether the point is a REPEATED
+    EIGENVALUE of the matrix handed to eigh is measured on the implementation (`tie_gap`); only then, and only for
+    the eigh-based models, are the substitution parameters held (known finding) - the cell is recorded."""
+    x, su = spec["x"], spec["subst"]
+    a_, b_ = rpos(rng, 0.5, 1.5), rpos(rng, 1.8, 3.5)
+    if "equal_rates" in point or point == "unit_values":
+        v = 1.0 if point == "unit_values" or rng.random() < 0.5 else a_
+        for k in ("kappa", "alpha", "beta"):
+            if k in x:
+                x[k] = [1.0]
+        for k in ("rates6", "gr"):
+            if k in x:
+                x[k] = [v] * len(x[k])
+    if point == "grouped_rates":
+        if "kappa" in x:
+            x["kappa"] = [b_]
+        if "rates6" in x:
+            x["rates6"] = [a_, b_, a_, a_, b_, a_]  # transversions a, transitions b
+        if "gr" in x:
+            h = len(x["gr"]) // 2
+            x["gr"] = [a_] * h + [b_] * (len(x["gr"]) - h)
+    if "uniform_freqs" in point or point == "unit_values":
+        if "freqs" in x:
+            x["freqs"] = [0.25] * 4
+        if "zfreqs" in x:
+            x["zfreqs"] = [0.0] * 3  # stick-breaking of 0 is the uniform distribution
+        if "cfreqs" in x:
+            x["cfreqs"] = [1.0 / 61] * 61
+    if point == "unit_values":
+        for k in ("shape", "mu", "rate"):
+            if k in x:
+                x[k] = [1.0]
+    spec["name"] += "/" + point
+    cell = {"model": su, "point": point, "eigh_based": su in EIGH_MODELS}
+    if su in EIGH_MODELS:
+        gap = tie_gap(spec)
+        cell["eigenvalue_gap"] = gap
+        if gap is not None and gap < 1e-7:
+            for k in SUBST_PARAM_LEAVES:
+                if k in x:
+                    hold_fixed(spec, k)
+            cell["status"] = ("EXCLUDED for the substitution parameters: repeated eigenvalue of the matrix handed to "
+                              "torch.linalg.eigh (known finding); branch/site/clock parameters still differentiated")
+        else:
+            cell["status"] = "tested: rates and frequencies differentiated (no repeated eigenvalue at this point)"
+    else:
+        cell["status"] = "tested: rates and frequencies differentiated (model does not go through eigh)"
+    spec["cell"] = cell
+    return spec
+
+
+def tie_gap(spec):
+    """smallest relative gap between eigenvalues of sqrt(pi) Q sqrt(pi)^-1 as the IMPLEMENTATION builds it at the
+    point of `spec` (None if it cannot be evaluated)"""
+    try:
+        b = scenario(dict(spec, coords=dict(spec.get("coords", {})))).make(spec["x"], False)
+        m = b.model.subst_model
+        with torch.no_grad():
+            Q = m.q()
+            Q = Q / m.norm(Q).unsqueeze(-1).unsqueeze(-1)
+            pi = m.frequencies
+            S = pi.sqrt().diag_embed() @ Q @ (1.0 / pi.sqrt()).diag_embed()
+            ev = torch.linalg.eigvalsh((S + S.transpose(-1, -2)) / 2).reshape(-1).sort()[0]
+            return float((ev[1:] - ev[:-1]).min() / max(1.0, float(ev.abs().max())))
+    except Exception:
+        return None
 
 
 def _subst_json(spec, vals, grad):
@@ -430,7 +500,7 @@ def _subst_json(spec, vals, grad):
     if s == "GenSym":
         return {"id": "subst", "type": "GeneralSymmetricSubstitutionModel", "data_type": "nucleotide",
                 "mapping": spec["mapping"], "rates": P("gr", vals["gr"], grad), "frequencies": fr}
-    if s == "GenNonSym":
+    if s in ("GenNonSym", "GenNonSym12"):
         return {"id": "subst", "type": "GeneralNonSymmetricSubstitutionModel", "data_type": "nucleotide",
                 "mapping": spec["mapping"], "rates": P("gr", vals["gr"], grad), "frequencies": fr, "normalize": True}
     if s == "MG94":
@@ -1559,12 +1629,19 @@ def catalogue(rng, tier):
                 ep.append(lambda m=m, w=with_r, z=z: gen_bdsk_epochs(rng, m, z, rng.choice(["time", "ratio"]), w,
                                                                       rng.random() < 0.8))
     c.extend(ep)
-    # equal exchangeabilities / kappa = 1 (repeated eigenvalues): rates and frequencies held, the rest differentiated
-    for subst in ("HKY", "GTR"):
-        for pz in ((False, True) if thorough else (rng.random() < 0.5,)):
-            sp.append(lambda su=subst, pz=pz: gen_like(rng, su, "weibull_inv" if pz else "weibull",
-                                                      rng.choice(["unrooted", "ratio"]), rng.randrange(2),
-                                                      pinv_zero=pz, equal_rates=True))
+    # substitution models x special points (ties): every model that does NOT go through eigh is differentiated in
+    # its rates and frequencies AT the tie; eigh-based models are differentiated there unless the point is measured to
+    # be a repeated eigenvalue (then the cell is recorded as excluded - the known finding has its own probe)
+    cells = [(m_, pt) for m_ in ("GenNonSym", "GenNonSym12") for pt in SUBST_POINTS]
+    ecells = [(m_, pt) for m_ in ("HKY", "HKY_sb", "GTR", "GTR_sb", "GenSym", "MG94") for pt in SUBST_POINTS]
+    if not thorough:
+        rng.shuffle(ecells)
+        ecells = ecells[:6]
+    for m_, pt in cells + ecells:
+        heavy = m_ == "MG94"
+        sp.append(lambda m_=m_, pt=pt, heavy=heavy: gen_like(
+            rng, m_, "const" if heavy else rng.choice(["const", "weibull", "weibull_inv"]),
+            rng.choice(["unrooted", "ratio"]), rng.randrange(2), subst_point=pt))
     sp.append(lambda: gen_coal(rng, rng.choice(["skygrid", "pwlinear"]), rng.choice(["time", "ratio"]), False,
                                special="equal_theta+beyond_root"))
     # several independent points per special configuration: whether a masked factor is EXACTLY zero in
